@@ -19,7 +19,14 @@ RULE = ("entries whose field keys are drawn from {a, A, b, B, ab, Ab, c} in ever
         "in one entry, through alphabetical, custom, normalise and their compositions (sort then normalise, normalise then "
         "sort, ...); judged on (key, value, type of value, start_line[, class of the Field for the two sorts]) in LIST order - "
         "a tie keeps the order of entry.fields, the last occurrence is the last in entry.fields, whatever start_line says; "
-        "encoded for the model like plain Fields of the same content. "
+        "encoded for the model like plain Fields of the same content; "
+        "RESERVED AND MAGIC NAMES (selfref.magic_for_tree() of the tree under test: ID, ENTRYTYPE, id, entrytype, key, fields, "
+        "the metadata keys of the shipped middlewares, attribute names of the model, format strings of the writer, ...; each "
+        "also in other cases) as field keys and as items of a custom order: every word x entries [o1, w, o2] / [o1, W, w] / [w] "
+        "x alphabetical, normalise, custom orders listing the word first / last / only / in the middle / in another case than "
+        "the entry holds it, case-sensitive and not; orders listing a word twice (constructor); 1-8 mixed reserved and ordinary "
+        "keys x 1-3 steps x frames x entry classes, entry type and key reserved words too (c17_reserved.py) - listed keys come "
+        "first in listed order whatever they are called, `ID` and `id` collide like any other pair. "
         "distinct = distinct (key list, step list, context, mode, entry class); non-trivial = the entry has at least two fields")
 TRUSTED = ["oracle instance: str.lower restricted to ASCII (inputs with other cased letters are compared by the Python oracle only)",
            "CPython's sorted() is a stable sort (Base/StableSort.v proves the stable sorted permutation unique, so any such "
@@ -146,6 +153,9 @@ def generate(rng, tier):
         add("userclass-unicode", names, [step], 0, bool(rng.getrandbits(1)), rng.choice([1, 2]))
     # ---- hand-built entries with repeated keys and arbitrary Field attributes (appended: the streams above keep their inputs)
     generate_handbuilt(rng, tier, cases)
+    # ---- reserved and magic names as field keys and order items (appended: the streams above keep their inputs)
+    from props import c17_reserved
+    c17_reserved.generate_reserved(rng, tier, cases)
     return cases
 
 
@@ -334,6 +344,10 @@ def shrink(case):
         mk(inplace=True)
     if inp.get("cls"):
         mk(cls=0)
+    if inp.get("ek"):
+        d = dict(inp)
+        del d["ek"]
+        out.append({"stream": "shrink", "input": d})
     return out
 
 
@@ -448,7 +462,8 @@ def build_blocks(inp):
     from bibtexparser.model import (Entry, Field, String, Preamble, ExplicitComment, ImplicitComment, ParsingFailedBlock,
                                     DuplicateFieldKeyBlock, MiddlewareErrorBlock)
     fields = build_fields(inp)
-    entry = Entry("article", "k1", fields, start_line=5, raw="@article{k1, ...}")
+    etype, ekey = inp.get("ek") or ("article", "k1")      # "ek": the entry's own type and key (reserved words, c17_reserved.py)
+    entry = Entry(etype, ekey, fields, start_line=5, raw="@article{k1, ...}")
     ctx = inp["ctx"]
     cls = inp.get("cls", 0)
     if cls:
@@ -611,7 +626,9 @@ def impl(case):
         got = [type(b).__name__ for b in lib0.blocks if is_entry(b)]
         if CLS_NAMES[cls] not in got:          # the generator's promise, not the library's: never silently test a plain entry
             raise AssertionError("harness: entry under test is not a %s: %r" % (CLS_NAMES[cls], got))
-    all_keys = list(inp["names"]) + [k for s in steps if s[0] == 1 for k in s[3]]
+    from props import c17_reserved
+    rec["tags"].extend(c17_reserved.tags(inp, MW_NAMES))
+    all_keys = list(inp["names"]) + [k for s in steps if s[0] == 1 for k in s[3]] + list(inp.get("ek") or [])
     if not all(enc.lower_is_ascii_only(k) for k in all_keys):
         rec["skip"] = True
     # constructors first
